@@ -162,6 +162,21 @@ def run_structure(rng, obs):
     # factor measure accessors
     m0 = c[0]
     ck(list(m0.weights) == wts[0] and list(m0.positions) == pos[0] and m0.npts == pts[0] and R.close(m0.mass, math.fsum(wts[0])), 'factor measure accessors')
+    # a factor re-weighted IN PLACE after the product quantities were read (same total: a permutation of its weights): every product
+    # quantity follows the factors as they are now
+    k_ = rng.randrange(len(pts))
+    if pts[k_] >= 2 and len(set(wts[k_])) >= 2:
+        neww = list(wts[k_]); neww = neww[1:] + neww[:1]
+        c[k_].weights = list(neww)
+        wts2 = [list(w) for w in wts]; wts2[k_] = neww
+        W2 = [math.prod(t) for t in cart(wts2)]
+        ck(len(c.weights) == len(W2) and all(R.close(float(a_), b_) for a_, b_ in zip(c.weights, W2)), 'point weights are the products of the factor weights',
+           after='a factor was re-weighted in place (same mass)', observed=[float(v) for v in c.weights[:5]], expected=W2[:5])
+        if math.fsum(W2) > 0:
+            ex2 = math.fsum(wi * yi for wi, yi in zip(W2, fy)) / math.fsum(W2)
+            ck(R.close(float(c.expect(f)), ex2, 1e-9, 1e-12), 'expect is the weighted sum of f over the product points', after='a factor was re-weighted in place (same mass)',
+               observed=float(c.expect(f)), expected=ex2)
+        obs.event('inplace_reweightings')
     obs.nontrivial = nontrivial_shape(pts, wts)
     obs.notes = {'npts': len(P)}
 
